@@ -154,6 +154,7 @@ type c15Case struct {
 	World string  `json:"world"`
 	V     *vCase  `json:"v,omitempty"`
 	L     *lCase  `json:"l,omitempty"`
+	Ld    *ldCase `json:"lend,omitempty"`
 	Plan  c15Plan `json:"plan"`
 }
 
@@ -285,6 +286,17 @@ func (m *vMachine) c15Prep(plan c15Plan) func() {
 	}
 }
 
+func (m *ldMachine) c15Prep(plan c15Plan) func() {
+	return func() {
+		for _, ai := range plan.Crash {
+			a := m.cs.Cfg.Assets[ai]
+			tw, _ := m.c.App.MarketKeeper.GetTwa(m.c.Ctx, a.ID)
+			m.c.SetPrice(a.ID, tw.Twa*3/10+1, true)
+			m.c.SetPrice(a.CID, tw.Twa*3/10+1, true)
+		}
+	}
+}
+
 func c15GenPlan(rt *rapid.T, ncoll int) c15Plan {
 	p := c15Plan{Dt: rapid.SampledFrom([]int64{5, 6, 600, 3600, 86400, 7 * 86400}).Draw(rt, "hookdt"), Align150: rapid.IntRange(0, 3).Draw(rt, "align") == 0}
 	for ai := 0; ai < ncoll; ai++ {
@@ -305,8 +317,21 @@ func TestC15_faults(t *testing.T) {
 	rapid.Check(t, func(rt *rapid.T) {
 		r.Guard(func() {
 			r.Eval()
-			cs := &c15Case{World: rapid.SampledFrom([]string{"vault", "vault", "liquidity"}).Draw(rt, "world")}
-			if cs.World == "vault" {
+			cs := &c15Case{World: rapid.SampledFrom([]string{"vault", "vault", "liquidity", "lend"}).Draw(rt, "world")}
+			if cs.World == "lend" {
+				lc := &ldCase{Cfg: genLdCfg(rt)}
+				lc.Cfg.Liq = genLdLiq(rt)
+				cs.Ld = lc
+				m := newLdMachine(rt, r, "C15", lc)
+				n := rapid.IntRange(10, 45).Draw(rt, "nops")
+				for i := 0; i < n; i++ {
+					op := m.genOp(rt, i)
+					lc.Ops = append(lc.Ops, op)
+					m.apply(i, op)
+				}
+				cs.Plan = c15GenPlan(rt, 4)
+				c15Faults(rt, r, cs, m.c, m.c15Prep(cs.Plan))
+			} else if cs.World == "vault" {
 				vc := &vCase{Cfg: genVCfg(rt, "C13", true)}
 				cs.V = vc
 				m := newVMachine(rt, r, "C15", vc)
@@ -342,7 +367,13 @@ func init() {
 			t.Fatal(err)
 		}
 		r.Eval()
-		if cs.World == "vault" {
+		if cs.World == "lend" {
+			m := newLdMachine(t, r, "C15", cs.Ld)
+			for i, op := range cs.Ld.Ops {
+				m.apply(i, op)
+			}
+			c15Faults(t, r, &cs, m.c, m.c15Prep(cs.Plan))
+		} else if cs.World == "vault" {
 			m := newVMachine(t, r, "C15", cs.V)
 			for i, op := range cs.V.Ops {
 				m.apply(i, op)
